@@ -35,7 +35,7 @@ DecodeRes(tab, s) ==
    IF s.pipe = <<>> THEN [res |-> "eof", next |-> s]
    ELSE LET d == RdGeom(s.pipe, 1, 0, TRUE) IN
         IF ~d.ok THEN [res |-> "err", next |-> s]              \* torn message: an error; the stream is dead afterwards
-        ELSE [res |-> "ok", v |-> ToIdsT(tab, d.v), srid |-> d.srid, next |-> [s EXCEPT !.pipe = Rest(s.pipe, d.pos), !.sent = Tail(@)]]
+        ELSE [res |-> "ok", v |-> ToIdsT(tab, d.v), srid |-> d.srid, next |-> [s EXCEPT !.pipe = Rest(s.pipe, d.pos), !.sent = IF @ = <<>> THEN @ ELSE Tail(@)]]
 \* the framing property: whatever was encoded, the reference stream decoder returns the oldest undecoded value
 Framing(tab, s) == s.sent # <<>> =>
    LET r == DecodeRes(tab, s) IN r.res = "ok" /\ r.v = Head(s.sent).v /\ r.srid = Head(s.sent).srid
